@@ -140,6 +140,8 @@ RCP<const Basic> pow(const RCP<const Basic> &a, const RCP<const Basic> &b)
                 }
             } else if (is_a<Complex>(*b)
                        and down_cast<const Number &>(*a).is_exact()) {
+                if (eq(*a, *one))
+                    return one;
                 return make_rcp<const Pow>(a, b);
             } else {
                 return down_cast<const Number &>(*a).pow(
